@@ -43,8 +43,10 @@ CharOf(e) == IF e.k = "print" THEN e.c ELSE e.b
 (* two renditions that differ in every field and in every single effect; well-formed lists are applied to both (and to all     *)
 (* their lenient alternatives); a field - or one effect - on which ALL candidates then agree was set by a sequence since, and   *)
 (* is known (KnownOk).  A full reset as the last token ends the wild phase.                                                     *)
-W1 == [fg |-> <<"idx", 201>>, bg |-> <<"idx", 202>>, ul |-> <<"idx", 203>>, eff |-> {}]
-W2 == [fg |-> <<"idx", 204>>, bg |-> <<"idx", 205>>, ul |-> <<"idx", 206>>, eff |-> Effects]
+\* (the stand-in colours are values NO sequence can select: agreement of the two candidates on a colour then really means
+\*  "set since" - with real palette entries as stand-ins, `38:5:205` after an odd list once agreed with a stand-in background)
+W1 == [fg |-> <<"unknown", 1>>, bg |-> <<"unknown", 2>>, ul |-> <<"unknown", 3>>, eff |-> {}]
+W2 == [fg |-> <<"unknown", 4>>, bg |-> <<"unknown", 5>>, ul |-> <<"unknown", 6>>, eff |-> Effects]
 KnownOk(S, g) ==
   LET c == CHOOSE c \in S : TRUE IN
   /\ ((\A a \in S : a.fg = c.fg) => g.fg = c.fg)
